@@ -24,7 +24,7 @@ func persistedString(j store.PersistedJob) string {
 
 func dumpJobPersistString(j *DJob) string {
 	var sb strings.Builder
-	fmt.Fprintf(&sb, "%d c=%v x=%v s=%v e=%v [", j.Idx, j.Completed, j.Canceled, j.Start >= 0, j.End >= 0)
+	fmt.Fprintf(&sb, "%d c=%v x=%v s=%v e=%v [", j.Idx, j.Completed, j.Canceled, j.Start != nilDur, j.End != nilDur)
 	for _, t := range j.Tasks {
 		fmt.Fprintf(&sb, "%s=%s,%v,%d,%q,%v,%v;", t.Name, t.Status, t.Errored, t.ExitCode, t.Error, t.HasStart, t.HasEnd)
 	}
@@ -303,9 +303,9 @@ func c11Scenarios(tier string) []*Scenario {
 				}
 				racingCancel := 0
 				scs = append(scs, &Scenario{
-					Name: fmt.Sprintf("shutdown/%s/%s/%s", s.n, mode, racer),
-					Desc: "Shutdown from this state, with the named concurrent client; forced: the context is cancelled at every possible point",
-					Opts: func() WorldOpts { return WorldOpts{Defs: defsOf(s.cfg), WithStore: true} },
+					Name:   fmt.Sprintf("shutdown/%s/%s/%s", s.n, mode, racer),
+					Desc:   "Shutdown from this state, with the named concurrent client; forced: the context is cancelled at every possible point",
+					Opts:   func() WorldOpts { return WorldOpts{Defs: defsOf(s.cfg), WithStore: true} },
 					Prefix: s.prefix,
 					Setup: func(w *World) {
 						w.Accepted = s.acc
